@@ -19,8 +19,8 @@ import (
 func init() {
 	Register(&Prop{ID: "C45", Title: "Identical histories produce identical state",
 		Technique: "SSA lints over every production function of both modules, each with a frozen, reasoned allow-list and a built-in positive example that must be flagged on every run: (1) map iteration whose loop body has an order-dependent effect (anything other than writes into maps, appends to a slice that is sorted before use, counters and flags); (2) sources of per-process nondeterminism (wall clock, random numbers, goroutines, select, environment, pointer-to-integer conversions); (3) floating point in state-machine code",
-		LevelText: "Decides the absence, in all non-test, non-CLI, non-simulation code of ibc-go, of the constructs through which two honest nodes could diverge on the same history: iteration over a Go map with an order-dependent body (every such loop is either proven order-insensitive by the shape of its body or is in the allow-list with its reason), use of time.Now, math/rand, crypto/rand, os.Getenv, goroutines or select in keeper/handler code, and floating-point arithmetic outside telemetry. Does not decide determinism of dependencies (cosmos-sdk, CometBFT, wasmvm, go-ethereum) nor of the Go runtime; does not compare app hashes.",
-		Note:      "go/types + go/ssa", Design: "§5 C45", Run: runC45})
+		LevelText: "Decides the absence, in all non-test, non-CLI, non-simulation code of ibc-go, of the constructs through which two honest nodes could diverge on the same history: iteration over a Go map with an order-dependent body (every such loop is either proven order-insensitive by the shape of its body or is in the allow-list with its reason), use of time.Now, math/rand, crypto/rand, os.Getenv, goroutines or select in keeper/handler code, and floating-point arithmetic outside telemetry. Does not decide determinism of dependencies (cosmos-sdk, CometBFT, wasmvm, go-ethereum) nor of the Go runtime; does not compare app hashes. The v2 router's lookup ranges over a map and is order-independent only because registered prefixes never overlap: that invariant is C48's, whose rules this check re-runs.",
+		Note:      "go/types + go/ssa", Design: "§5 C45", Run: runC45, Deps: []string{"C48"}})
 }
 
 type detFinding struct {
